@@ -59,6 +59,7 @@ def main():
     out = sys.stdout.buffer
     out.write(pickle.dumps(r))
     out.flush()
+    os._exit(0)  # (a thread the code under test left blocked must not keep this interpreter from ending)
 
 
 if __name__ == "__main__":
